@@ -125,16 +125,18 @@ def _gc(keep=40):
 
 
 class Ctx:
-    def __init__(self, repo=REPO, tier='quick'):
+    def __init__(self, repo=REPO, tier='quick', config='default'):
         self.repo = repo
         self.tier = tier
+        self.config = config
         self._facts = {}
         self._purity = {}
         self._paths = {}
         self.tree = None
         self.extracted = []
 
-    def facts(self, config='default'):
+    def facts(self, config=None):
+        config = config or self.config
         if config not in self._facts:
             path, th, fresh = extract(self.repo, config)
             self.tree = th
@@ -165,13 +167,15 @@ class Ctx:
                 lock.close()
         return self._facts['fixture']
 
-    def purity(self, config='default'):
+    def purity(self, config=None):
+        config = config or self.config
         if config not in self._purity:
             self._purity[config] = Purity(self.facts(config))
         return self._purity[config]
 
-    def paths(self, name, config='default', opaque=(), inline=True):
+    def paths(self, name, config=None, opaque=(), inline=True):
         """all paths of a body (cached); raises CannotAnalyse"""
+        config = config or self.config
         key = (name, config, tuple(sorted(opaque)), inline)
         if key not in self._paths:
             f = self.facts(config)
@@ -229,7 +233,7 @@ class Report:
                 '%s matched %d instance(s) of %s, at least %d were confirmed by reading: the rule would pass '
                 'vacuously' % (rule, count, what, minimum), reason='floor')
 
-    def anchor(self, ctx, name, config='default'):
+    def anchor(self, ctx, name, config=None):
         b = ctx.facts(config).body(name)
         if b is None:
             self.ob('anchor', name, False, 'anchor function %s not found in the analysed crate' % name,
